@@ -326,3 +326,90 @@ Definition edges_check (c : edges_case) : bool :=
 
 Definition edges_expected (c : edges_case) : option bool :=
   option_map (edges_ok mia_tol) (all_some (map fval_qc (ec_edges c))).
+
+(* ------------------------------------------------------------------------------------------ run-length encoded cases *)
+(* Large trace counts (totals beyond the range of a narrow accumulator dtype while every cell fits): a case gives the rows
+   with a repetition count; the table of the expanded row list is computed on the runs directly as a weighted sum, which
+   is the same table by Proofs/Mia.hist_bsum_w_expand. *)
+Definition expand {A} (wl : list (A * positive)) : list A := flat_map (fun p => repeat (fst p) (Pos.to_nat (snd p))) wl.
+Definition st_scale (n : Z) (s : st) : st := map (map (Z.mul n)) s.
+
+Definition hist_bsum_w (edges : list Qc) (est : Qc -> nat) (parts : list Z) (runs : list (row * positive)) : st :=
+  fold_right (fun r a => st_plus (st_scale (Zpos (snd r)) (contrib edges est parts (fst r))) a) st_zero runs.
+
+Definition count_tags_w (tags : list ((option nat * option nat) * positive)) (b k : nat) : Z :=
+  fold_right (fun t a => if tag_hits b k (fst t) then (Zpos (snd t) + a)%Z else a) 0%Z tags.
+Definition hist_spec_w (edges : list Qc) (parts : list Z) (runs : list (row * positive)) (b k : nat) : Z :=
+  count_tags_w (map (fun r => (row_tag edges parts (fst r), snd r)) runs) b k.
+
+(* ln k for the integers k that occur as numerator / denominator of a probability, as (k, math.log k) pairs *)
+Fixpoint ln_assoc (tab : list (Z * Qc)) (k : Z) : Qc :=
+  match tab with
+  | [] => Q2Qc (inject_Z 1000000)
+  | (k', v) :: r => if Z.eqb k k' then v else ln_assoc r k
+  end.
+Definition phi_ln_assoc (tab : list (Z * Qc)) (p : Qc) : Qc :=
+  p * (ln_assoc tab (Qnum p) - ln_assoc tab (Zpos (Qden p))).
+
+Record mia_rl_case := {
+  rc_edges : list fval;
+  rc_parts : list Z;
+  rc_runs : list ((list fval * list Z) * positive);    (* (samples, data words) repeated so many times *)
+  rc_ns : nat;
+  rc_nw : nat;
+  rc_ln : list (Z * fval);
+  rc_f32 : bool;
+  rc_obs_acc : list (list (list (list Z)));            (* accumulators [sample][bin][class][word] *)
+  rc_obs_res : list (list fval)                        (* compute() [word][sample] *)
+}.
+
+Definition rl_entry_runs (c : mia_rl_case) (s w : nat) : option (list (row * positive)) :=
+  all_some (map (fun r : (list fval * list Z) * positive =>
+    match fval_qc (nth s (fst (fst r)) NaN) with
+    | Some x => Some ((x, nth w (snd (fst r)) (-1)%Z), snd r)
+    | None => None
+    end) (rc_runs c)).
+
+Definition rl_model (c : mia_rl_case) (edges : list Qc) (s w : nat) : option st :=
+  option_map (hist_bsum_w edges (est_exact edges) (rc_parts c)) (rl_entry_runs c s w).
+
+Definition rl_entry_check (c : mia_rl_case) (edges : list Qc) (lntab : list (Z * Qc)) (s w : nat) : bool :=
+  let nb := nbins edges in
+  let nc := length (rc_parts c) in
+  match rl_entry_runs c s w with
+  | None => false
+  | Some runs =>
+      let model := hist_bsum_w edges (est_exact edges) (rc_parts c) runs in
+      let tags := map (fun r : row * positive => (row_tag edges (rc_parts c) (fst r), snd r)) runs in
+      let obs b k := nth w (nth k (nth b (nth s (rc_obs_acc c) []) []) []) (-1)%Z in
+      forallb (fun b => forallb (fun k =>
+          Z.eqb (obs b k) (get model b k) && Z.eqb (obs b k) (count_tags_w tags b k)) (seq 0 nc)) (seq 0 nb)
+      && fval_matches 0 (if rc_f32 c then (64 * u32 * inject_Z (Z.of_nat (S nb)))%Q else (Qmake 1 (2 ^ 30))%Q)
+           (nth s (nth w (rc_obs_res c) []) PInf)
+           (option_map this (comp (phi_ln_assoc lntab) nb nc model))
+  end.
+
+Definition ln_pair (p : Z * fval) : option (Z * Qc) :=
+  match fval_qc (snd p) with Some v => Some (fst p, v) | None => None end.
+
+Definition mia_rl_check (c : mia_rl_case) : bool :=
+  match all_some (map fval_qc (rc_edges c)), all_some (map ln_pair (rc_ln c)) with
+  | Some edges, Some lntab =>
+      edges_ok mia_tol edges
+      && Nat.eqb (length (rc_obs_acc c)) (rc_ns c)
+      && Nat.eqb (length (rc_obs_res c)) (rc_nw c)
+      && forallb (fun s => forallb (fun w => rl_entry_check c edges lntab s w) (seq 0 (rc_nw c))) (seq 0 (rc_ns c))
+  | _, _ => false
+  end.
+
+Definition mia_rl_expected (c : mia_rl_case) : list (nat * nat * option st * option Q) :=
+  match all_some (map fval_qc (rc_edges c)), all_some (map ln_pair (rc_ln c)) with
+  | Some edges, Some lntab =>
+      flat_map (fun s => map (fun w =>
+        let m := rl_model c edges s w in
+        (s, w, m, match m with
+                  | Some t => option_map this (comp (phi_ln_assoc lntab) (nbins edges) (length (rc_parts c)) t)
+                  | None => None
+                  end)) (seq 0 (rc_nw c))) (seq 0 (rc_ns c))
+  | _, _ => []
+  end.
